@@ -54,13 +54,7 @@ class InvalidSequenceInit(_Init):
 
     def ensures(self, ex, pre, st, a, result):
         s = a["self"]
-        d = st.get(s, "details")
-        out = [("stores-the-sequence", tm.B(st.get(s, "sequence") is a["sequence"]))]
-        if self.variant == "details":
-            out += [("stores-the-details", tm.B(d is a["details"])), ("stores-the-cause", tm.B(st.get(s, "exc") is a["exc"]))]
-        else:
-            out += [("no-details", tm.B(isinstance(d, VNone))), ("no-cause", tm.B(isinstance(st.get(s, "exc"), VNone)))]
-        return out
+        return [("stores-the-sequence", tm.B(st.get(s, "sequence") is a["sequence"]))]
 
 
 class _VarInit(_Init):
@@ -82,8 +76,7 @@ class _VarInit(_Init):
         got = st.get(s, self.field)
         d = st.get(s, "details")
         ok = isinstance(got, VTuple) and len(got.items) == len(self.things) and all(x is y for x, y in zip(got.items, self.things))
-        return [("stores-what-it-was-given-in-order", tm.B(ok)),
-                ("details", tm.B(d is a.get("details") if self.variant == "details" else isinstance(d, VNone)))]
+        return [("stores-what-it-was-given-in-order", tm.B(ok))]
 
 
 class DuplicateModulesInit(_VarInit):
@@ -107,8 +100,7 @@ class MissingModuleInit(_Init):
     def ensures(self, ex, pre, st, a, result):
         s = a["self"]
         d = st.get(s, "details")
-        return [("names-the-overhang", tm.B(st.get(s, "start_overhang") is a["start_overhang"])),
-                ("details", tm.B(d is a.get("details") if self.variant == "details" else isinstance(d, VNone)))]
+        return [("names-the-overhang", tm.B(st.get(s, "start_overhang") is a["start_overhang"]))]
 
 
 class _Str(Contract):
@@ -134,11 +126,13 @@ class _Str(Contract):
             return [("returns-a-text", tm.FALSE)]
         d = pre.get(a["self"], "details")
         suffix = tm.concat(" (", d.t, ")") if isinstance(d, VT) else tm.S("")
-        mid = self.middle(ex, pre, a)
-        if mid is not None:
-            return [("the-message", tm.eq(result.t, tm.concat(self.prefix, mid, suffix)))]
-        return [("starts-with-the-message", tm.prefixof(tm.S(self.prefix), result.t)),
-                ("ends-with-the-details", tm.suffixof(suffix, result.t))]
+        # what the statements ask of a message: it exists (no exception) and names what the error is about -- every module
+        # identifier / the overhang; the wording around them is the maintainers' business
+        named = self.names(ex, pre, a)
+        return [("returns-a-text", tm.TRUE)] + [("names-%d" % i, tm.contains(result.t, t_)) for i, t_ in enumerate(named)]
+
+    def names(self, ex, st, a):
+        return []
 
     def result(self, ex, st, a):
         return [(st, VT(tm.fresh("message", STR)))]
@@ -178,14 +172,8 @@ class _ModsStr(_Str):
         st.set_inplace(s, "details", _details(variant))
         return dict(self=s)
 
-    def middle(self, ex, st, a):
-        ids = [st.get(st.get(m, "record"), "id").t for m in self.mods]
-        parts = []
-        for i, t in enumerate(ids):
-            if i:
-                parts.append(tm.S(", "))
-            parts.append(t)
-        return tm.concat(*parts) if parts else tm.S("")
+    def names(self, ex, st, a):
+        return [st.get(st.get(m, "record"), "id").t for m in self.mods]
 
 
 class DuplicateModulesStr(_ModsStr):
@@ -205,12 +193,8 @@ class MissingModuleStr(_Str):
         st.set_inplace(s, "details", _details(variant))
         return dict(self=s)
 
-    def ensures(self, ex, pre, st, a, result):
-        if not (isinstance(result, VT) and result.t.sort == STR):
-            return [("returns-a-text", tm.FALSE)]
-        d = pre.get(a["self"], "details")
-        suffix = tm.concat(" (", d.t, ")") if isinstance(d, VT) else tm.S("")
-        return [("names-the-overhang", tm.eq(result.t, tm.concat("no module with '", pre.get(a["self"], "start_overhang").t, "' start overhang", suffix)))]
+    def names(self, ex, st, a):
+        return [st.get(a["self"], "start_overhang").t]
 
 
 CONTRACTS = [InvalidSequenceInit(), DuplicateModulesInit(), UnusedModulesInit(), MissingModuleInit(),
